@@ -7,9 +7,9 @@ export CARGO_TARGET_DIR=/tmp/vt/.cache/repo-target
 cd /tmp/vt-repo
 git checkout -q --detach "$(git -C /repo rev-parse HEAD)"; git checkout -q -- .; git clean -fdq tests
 cp "$S/demo.rs" tests/seed_demo.rs
-echo "== without patch"; cargo test --offline --test seed_demo 2>&1 | grep "^test result" || echo "NO RESULT"
+echo "== without patch"; cargo test --offline --features verif-hooks --test seed_demo -- --test-threads=1 2>&1 | grep "^test result" || echo "NO RESULT"
 git apply "$S/patch.diff"
-echo "== with patch: demo"; cargo test --offline --test seed_demo 2>&1 | grep "^test result\|^error\[" || echo "NO RESULT"
+echo "== with patch: demo"; cargo test --offline --features verif-hooks --test seed_demo -- --test-threads=1 2>&1 | grep "^test result\|^error\[" || echo "NO RESULT"
 rm tests/seed_demo.rs
 echo "== with patch: suite"; cargo test --workspace --no-fail-fast --offline 2>&1 | grep "^test result" | awk '{p+=$4; f+=$6} END {print "passed",p,"failed",f}'
 git checkout -q -- .; git clean -fdq tests
